@@ -127,6 +127,16 @@ func (c *Ctx) checkMarshalOf(pj *simdjson.ParsedJson, nd bool, info map[string]i
 		c.Violate("marshal", "MarshalJSON failed on a well-formed tape: "+err.Error(), "marshal-err", mk(nil))
 		return
 	}
+	// MarshalJSONBuffer appends to its destination and produces the same text
+	func() {
+		defer func() { recover() }()
+		it := pj.Iter()
+		prefix := []byte("prefix\x00kept")
+		buf, e := it.MarshalJSONBuffer(append(make([]byte, 0, 64), prefix...))
+		if e != nil || !bytes.HasPrefix(buf, prefix) || !bytes.Equal(buf[len(prefix):], out) {
+			c.Violate("marshal", "MarshalJSONBuffer(dst) is not dst followed by MarshalJSON's text", "marshal-buffer-append", mk(map[string]interface{}{"out": trunc(printable(buf), 300)}))
+		}
+	}()
 	// valid JSON, roots separated by newlines, same document
 	lines := bytes.Split(out, []byte("\n"))
 	scalarRoot := false
